@@ -81,6 +81,14 @@ class Counter:
         return None if (self.nones and self.n % 3 == 2) else self.n
 
 
+class HintedCounter(Counter):
+    """an iterator that knows only about the elements it has buffered (a chunked cursor): its length hint is a lower bound"""
+
+    def __length_hint__(self):
+        left = (self.L - self.n) if self.L >= 0 else 3
+        return min(left, 2)
+
+
 class LazySeq:
     """lazy __getitem__/__len__ sequence; records highest index asked and len() calls"""
 
@@ -157,6 +165,10 @@ def observe(par, kind='vars', seqkind='list', as_str=False, extra=''):
     elif seqkind == 'gennone':
         c = Counter(L)
         c.nones = True
+        seq = c
+        pulls = lambda: c.n  # noqa
+    elif seqkind == 'hinted':
+        c = HintedCounter(L)
         seq = c
         pulls = lambda: c.n  # noqa
     elif seqkind == 'genfn':
